@@ -263,7 +263,7 @@ def alert_levels(chk):
             chk.violation(R, inst, P.src, 'the word can return under eng.alert == 2', key='%s %s fatal-returns' % (R, key))
 
 
-def engine_rules(chk):
+def reneg_declined_obligations():
     s = 'src/ssl/ssl_engine.c'
     u = build.load_unit(s)
     L = irf.Layouts(u)
@@ -281,12 +281,20 @@ def engine_rules(chk):
         Ob(s, 'br_ssl_engine_renegotiate', Call('br_ssl_engine_recvapp_buf'), ('pin', 'inttoptr (i64 4096 to i8*)'), nojh, None,
            'unread application data pending', rule=R, noinline=NI + ('br_ssl_engine_recvapp_buf',)),
     ]
+    return obs
+
+
+def engine_rules(chk):
+    s = 'src/ssl/ssl_engine.c'
+    u = build.load_unit(s)
+    NI = ('jump_handshake',)
+    obs = reneg_declined_obligations()
     oblig.run_obligations(chk, obs)
     close_order(chk)
     NI = ('jump_handshake',)
     # close on a closed engine does nothing
     oblig.run_obligations(chk, [
-        Ob(s, 'br_ssl_engine_close', Call('br_ssl_engine_closed'), ('pin', 1), NOCALL('jump_handshake'), ('pin', 0), 'closing twice', rule=R, noinline=NI),
+        Ob(s, 'br_ssl_engine_close', Call('br_ssl_engine_closed'), ('pin', 1), NOCALL('jump_handshake'), ('pin', 0), 'closing twice', rule='close-discards-before-closing', noinline=NI),
     ])
 
 
